@@ -12,8 +12,10 @@
     fru <storehex> <off|-> <count|-> <faults>      -> ok <hex> <nreq> | <tag> <nreq>
     fruarea <storehex> <off> <faults>              -> ok <hex> <nreq> | <tag> <nreq>      (fru._read_fru_area)
     clear <budget> <faults>                        -> <tag> <nreq>
-    andwait <busy 0|1> <polls> <faults>            -> <tag> <nreq>
-    upload <nblocks> <busy 0|1> <polls> <faults>   -> <tag> <nreq>
+    andwait <strict 0|1> <status 0|1|2> <polls> <faults>            -> <tag> <nreq>
+    upload <strict 0|1> <nblocks> <status 0|1|2> <polls> <faults>   -> <tag> <nreq>
+        strict: 0 = the wait as shipped, 1 = intended (Model/ProgHpm.lean); status: what Get upgrade
+        status reports as last completion code: 0 = 00h, 1 = 80h for ever, 2 = 82h (the command failed)
     chunk <budget> <faults>                        -> <tag> <nreq>
     props <strict 0|1> <faults>                    -> ok <items> <nreq> | <tag> <nreq>
     chanauth <hasMethod 0|1> <faults>              -> <tag> <nreq>
@@ -34,6 +36,7 @@ import PyIpmi.Base.Proto
 import PyIpmi.Model.Prog
 import PyIpmi.Model.ProgMore
 import PyIpmi.Model.ProgOps
+import PyIpmi.Model.ProgHpm
 import PyIpmi.Spec.FaultDevice
 import PyIpmi.Gen.ApiShapes
 import PyIpmi.Lemmas.ProgTable
@@ -82,6 +85,15 @@ def reserveP : Prog Nat :=
   (sendChecked ⟨3, []⟩).bind fun rsp => .done (rsp.data.headD 0 + 256 * (rsp.data.getD 1 0))
 
 def statusBusy (rsp : Rsp) : Bool := rsp.data.getD 2 0 == 0x80
+
+/-- Get upgrade status reports a final code other than 00h -/
+def statusFailed (rsp : Rsp) : Bool := rsp.data.getD 2 0 != 0 && rsp.data.getD 2 0 != 0x80
+
+/-- `drvBase` with the three HPM status scripts of harness/sim/fault_iface.py
+(default / busyhpm / failhpm) -/
+def drvHpm (mode : Nat) : Req → Rsp := fun r =>
+  if r.cmd = 7 then ⟨0, [0, 0x31, if mode = 1 then 0x80 else if mode = 2 then 0x82 else 0, 0x32]⟩
+  else drvBase [] false r
 
 def mkRead (off n : Nat) : Req := ⟨2, [0, off % 256, off / 256, n]⟩
 
@@ -220,21 +232,22 @@ def handleC08 (line : String) : String :=
       let (r, n) := runOn p (drvBase [] false) f
       s!"{resTag r} {n}"
     | _, _ => "bad-op"
-  | ["andwait", busy, polls, fs] =>
-    match polls.toNat?, parseFaults fs with
-    | some pl, some f =>
-      let p := andWait 0x80 ((sendChecked ⟨6, []⟩).bind fun _ => .done ()) (waitLong ⟨7, []⟩ statusBusy pl)
-      let (r, n) := runOn p (drvBase [] (busy == "1")) f
-      s!"{resTag r} {n}"
-    | _, _ => "bad-op"
-  | ["upload", nb, busy, polls, fs] =>
-    match nb.toNat?, polls.toNat?, parseFaults fs with
-    | some nb, some pl, some f =>
-      let blocks := (List.range nb).map fun i => (⟨8, [i]⟩ : Req)
-      let p := uploadBinary 0x80 (waitLong ⟨7, []⟩ statusBusy pl) blocks
-      let (r, n) := runOn p (drvBase [] (busy == "1")) f
+  | ["andwait", strict, mode, polls, fs] =>
+    match mode.toNat?, polls.toNat?, parseFaults fs with
+    | some mode, some pl, some f =>
+      let p := andWait 0x80 ((sendChecked ⟨6, []⟩).bind fun _ => .done ())
+        (waitLongV (strict == "1") ⟨7, []⟩ statusBusy statusFailed pl)
+      let (r, n) := runOn p (drvHpm mode) f
       s!"{resTag r} {n}"
     | _, _, _ => "bad-op"
+  | ["upload", strict, nb, mode, polls, fs] =>
+    match nb.toNat?, mode.toNat?, polls.toNat?, parseFaults fs with
+    | some nb, some mode, some pl, some f =>
+      let blocks := (List.range nb).map fun i => (⟨8, [i]⟩ : Req)
+      let p := uploadBinary 0x80 (waitLongV (strict == "1") ⟨7, []⟩ statusBusy statusFailed pl) blocks
+      let (r, n) := runOn p (drvHpm mode) f
+      s!"{resTag r} {n}"
+    | _, _, _, _ => "bad-op"
   | ["chunk", budget, fs] =>
     match budget.toNat?, parseFaults fs with
     | some b, some f =>
